@@ -97,6 +97,11 @@ theorem popcount_generic_correct :
     (∀ x : BitVec 64, popcountGeneric64 x = popcountOverload x) :=
   ⟨by decide, popcountGeneric16_eq, popcountGeneric32_eq, popcountGeneric64_eq⟩
 
+/-- **popcount(const void* data, size_t size)** (repaired: unaligned-safe loads): the number of one
+    bits of the byte string, for every length and every content -/
+theorem popcount_buffer_correct (bs : List (BitVec 8)) :
+    popcountBuf bs = (bs.map fun b => popc 8 b.toNat).sum := popcountBuf_eq bs
+
 /-- **integer_log2_floor_template** = `⌊log₂ i⌋` for every `i ≥ 1` (0 for 0), and it agrees with the
     intrinsic-based overload -/
 theorem log2_floor_correct {w : Nat} (sg : Bool) (i : BitVec w) (hnn : NonNeg sg i)
